@@ -149,6 +149,15 @@ pub fn make_deals(rng: &mut Rng, n: usize) -> Vec<Deal> {
     out
 }
 
+/// the engine's own offered deal (`Game::draw`), with the uniform index of every `Deck::draw`
+/// inside it taken from the run's seed (hook H1/H3) so that runs are reproducible
+pub fn offered(g: &Game, rng: &mut Rng) -> Hand {
+    robopoker::verif::set_draw_index(Some(rng.below(64) as u8));
+    let h = g.draw();
+    robopoker::verif::set_draw_index(None);
+    h
+}
+
 /// every action the engine should accept at a choice node: legal() plus every raise size
 pub fn menu(g: &Game) -> Vec<Action> {
     let mut v = vec![];
@@ -184,7 +193,7 @@ pub fn random_history(rng: &mut Rng, deal: &Deal, style: u64) -> (Vec<Action>, V
                 let st = g.street() as usize;
                 if own_draws || rng.chance(1, 4) {
                     own_draws = true; // forced cards may already be on the board: stay with the engine's offers
-                    Action::Draw(g.draw())
+                    Action::Draw(offered(&g, rng))
                 } else {
                     Action::Draw(hand(deal.streets[st]))
                 }
